@@ -658,14 +658,35 @@ namespace occa {
           break;
         }
 
-        if ((op.precedence > prevOp.precedence) ||
-            ((op.precedence == prevOp.precedence) &&
-             op::associativity[prevOp.precedence] == op::leftAssociative)) {
+        bool applyPrevOp = (
+          (op.precedence > prevOp.precedence) ||
+          ((op.precedence == prevOp.precedence) &&
+           op::associativity[prevOp.precedence] == op::leftAssociative)
+        );
+        bool foundQuestionMark = false;
 
+        // The conditional operator groups right-to-left
+        //   a ? b : c ? d : e  ->  a ? b : (c ? d : e)
+        // and its middle operand can be another conditional
+        //   a ? b ? c : d : e  ->  a ? (b ? c : d) : e
+        // so [?] keeps the pending [?] and [:] in the stack
+        // and [:] is applied up to the [?] it belongs to
+        if (op.precedence == prevOp.precedence) {
+          if (op.opType & operatorType::questionMark) {
+            applyPrevOp = false;
+          } else if (op.opType & operatorType::colon) {
+            foundQuestionMark = (prevOp.opType & operatorType::questionMark);
+          }
+        }
+
+        if (applyPrevOp) {
           applyOperator(state.popOperator());
 
           if (state.hasError) {
             return;
+          }
+          if (foundQuestionMark) {
+            break;
           }
           continue;
         }
